@@ -97,6 +97,10 @@ def main():
             text += (f" The decision logic of {GUARDS[pid]} is re-translated from the source into Lean on every run (translate/py2lean_guards.py → LK/Generated/Guards{pid}.lean) "
                      f"and proved to be the model's (LK/Proofs/Guards{pid}.lean); a broken obligation triggers the failing-input search.")
             tech += " + per-run translation of decision logic with proof obligations"
+        if pid == "C12":
+            text += (" What the batch runner registers, what its worker asks of the pipeline for one key, and the length batch.recommend forwards are recorded on every run and proved to be the worker model's "
+                     "(LK/Model/BatchWorker.lean, LK/Proofs/BatchTraceC12.lean: one call per invocation, each with its own inputs only; n forwarded as given).")
+            tech += " + per-run recording of the runner / worker calls proved equal to the worker model"
         if pid == "C15":
             text += (" The file-system step sequence of the real DataContainer.save (over an existing directory and into a fresh one) is recorded on every run and proved to be the model's saveSteps / saveFresh "
                      "(LK/Proofs/SaveTraceC15.lean), so the crash-safety theorems apply to what the code did.")
